@@ -25,6 +25,7 @@ PROPS = {
     "C07": ["OneCCAtATime", "RemovedNeverReadmitted", "KindsDisjoint", "MembershipHasVoter",
             "KindOnlyPromotes", "ElectionSafety", "NoTwoLeadersNow", "CommittedAgree",
             "ApplyAgreement"],
+    "C17": ["BoundedProgress"],
     "C18": ["OnlyVotersLead", "NonVotingWitnessRoles", "ElectionQuorum", "CommitQuorum",
             "WitnessNoPayload", "WitnessLogMeta", "ReadIndexMechanism"],
 }
@@ -143,7 +144,7 @@ def extract_trace(path, tid):
 
 
 def run_rsim_batches(scr, binary, seed, n_batches, traces_per_batch, steps, combos=COMBOS,
-                     workers=14):
+                     workers=14, extra_env=None):
     """Generate and validate batches in parallel. Returns list of (meta, report)."""
     jobs = []
     k = 0
@@ -156,7 +157,7 @@ def run_rsim_batches(scr, binary, seed, n_batches, traces_per_batch, steps, comb
         k, b, pv, cq = job
         out = scr.path("traces", "t%d.ndjson" % k)
         first = b * traces_per_batch
-        stats = gen_traces(binary, out, seed, first, traces_per_batch, steps, pv, cq)
+        stats = gen_traces(binary, out, seed, first, traces_per_batch, steps, pv, cq, extra_env)
         rep = validate_trace_file(scr, out, pv, cq, "b%d" % k)
         meta = {"file": out, "prevote": pv, "checkquorum": cq, "first": first,
                 "traces": traces_per_batch, "steps": steps, "seed": seed, "stats": stats}
@@ -183,6 +184,7 @@ def judge(prop, verdict, results, scr):
             rp = save_replay(prop, "rsim-s%d-t%d-pv%d-cq%d.json" % (meta["seed"], tid, meta["prevote"], meta["checkquorum"]),
                              {"kind": "rsim", "seed": meta["seed"], "trace": tid, "steps": meta["steps"],
                               "prevote": meta["prevote"], "checkquorum": meta["checkquorum"],
+                              "progress": meta.get("progress", 0),
                               "violated": name, "at_step": step,
                               "events": [json.loads(x) for x in lines[:step + 1]][-40:]})
             verdict.violation("%s:%s" % (prop, name),
